@@ -364,6 +364,12 @@ func objectDefineOwnProperty(obj *object, name string, descriptor property, thro
 		if !configurable {
 			return reject("property descriptor not configurable")
 		}
+		if !isDataDescriptor && descriptor.value == nil {
+			// 8.12.9 step 9.c: an accessor property converted by a data descriptor
+			// without [[Value]] (e.g. {writable: true}) gets the default value undefined,
+			// it must not keep the getter/setter pair as its value.
+			descriptor.value = Value{}
+		}
 	case isDataDescriptor && descriptor.isDataDescriptor():
 		// DataDescriptor <=> DataDescriptor
 		if !configurable {
